@@ -92,18 +92,18 @@ def stepLine (g r l p a opn gr now : String) : String :=
 
 /-- like `stepLine`, from a handle with the given view of the packs (`vw`: packs as in `p`; an entry that is not one of
 the packs of `p` is a cached pack whose files are gone) -/
-def stepvLine (g r l p a vw opn gr now : String) : String :=
-  match keyed? g, ids? r, store? l p a, keyed? vw, grace? gr, nat? now with
-  | some g, some roots, some s, some vw, some grace, some now =>
+def stepvLine (g r l p a vw ex opn gr now : String) : String :=
+  match keyed? g, ids? r, store? l p a, keyed? vw, ids? ex, grace? gr, nat? now with
+  | some g, some roots, some s, some vw, some extra, some grace, some now =>
     let G := lookupFn g
     let view : List GC.Pack := vw.map (fun e => { ids := e.2, mtime := e.1 })
     match opOf opn grace now with
     | none => "bad-arg"
     | some op =>
-      match GC.applyV GC.Variant.current G roots (fuelFor s G roots) view op s with
+      match GC.applyV GC.Variant.current G roots (fuelFor (s.withStale extra) G roots) view extra op s with
       | none => "fuel"
       | some (s', raised) => s!"{showStore s'}|raised={showBool raised}"
-  | _, _, _, _, _, _ => "bad-arg"
+  | _, _, _, _, _, _, _ => "bad-arg"
 
 /-! ### reader replay -/
 
@@ -185,7 +185,7 @@ def handle (op : String) (args : List String) : Option String :=
          | none => "fuel")
       | _, _, _ => "bad-arg"
   | "c10.step", [g, r, l, p, a, opn, gr, now] => some (stepLine g r l p a opn gr now)
-  | "c10.stepv", [g, r, l, p, a, vw, opn, gr, now] => some (stepvLine g r l p a vw opn gr now)
+  | "c10.stepv", [g, r, l, p, a, vw, ex, opn, gr, now] => some (stepvLine g r l p a vw ex opn gr now)
   | "c10.lookup", kind :: x :: n :: rp :: alts :: pk :: cache :: il :: dl :: fss =>
       some (lookupLine kind x n rp alts pk cache il dl fss)
   | "c10.iter", ra :: alts :: pk :: cache :: il :: fss => some (iterLine ra alts pk cache il fss)
